@@ -119,7 +119,8 @@ Class(d, st) ==
      - every responder of F fires, unless a callback of this delivery disabled or freed it - then either is
        fine, except when that callback belongs to a responder registered later on the same path of the same
        dispatcher (then it had its turn before);
-     - responders on the same path of the same dispatcher fire in registration order.
+     - responders on the same path of the same dispatcher that no callback of this delivery touched fire in
+       registration order.
    The state afterwards is the state reached by the invocations that really happened.                  *)
 SameKey(st0, x, y) == st0.rs[x].path = st0.rs[y].path /\ st0.rs[x].kind = st0.rs[y].kind
 Pos(F, x) == CHOOSE n \in 1..Len(F) : F[n] = x
@@ -152,7 +153,8 @@ JudgeMsg(st0, m, src, via, tag, seg) ==
                   st0, F, seg, 1, m, src, via, tag)
         fired == ToSet(w.fired)
         Excused(r) == \E p \in w.kills : p[2] = r /\ ~(p[1] \in ToSet(F) /\ SameKey(st0, p[1], r) /\ Pos(F, r) < Pos(F, p[1]))
-        inF == SelectSeq(w.fired, LAMBDA x : x \in ToSet(F))
+        touched == {p[2] : p \in w.kills} \cup w.enabled      \* re-registered or removed meanwhile: no place in the order
+        inF == SelectSeq(w.fired, LAMBDA x : x \in ToSet(F) /\ x \notin touched)
         end == IF \E r \in ToSet(F) : r \notin fired /\ ~Excused(r) THEN "ShouldFire"
                ELSE IF \E i, j \in 1..Len(inF) : i < j /\ SameKey(st0, inF[i], inF[j]) /\ Pos(F, inF[i]) > Pos(F, inF[j])
                     THEN "OrderIsRegistrationOrder"
